@@ -130,10 +130,18 @@ func (b *byzantine) rewriteFastSync(src *node, m outMsg) outMsg {
 				return m
 			}
 		}
-		kinds := []string{"minus-to-2/3", "duplicate", "foreign-key", "bitflip", "empty", "time-shift", "other-round", "minus-to-2/3+1"}
+		kinds := []string{"minus-to-2/3", "duplicate", "foreign-key", "bitflip", "empty", "time-shift", "other-round", "minus-to-2/3+1", "unrecoverable", "no-recovery-id"}
 		kind := kinds[t.Choose("fs.kind", len(kinds))]
 		items := append([]cvlItem(nil), c.Items...)
+		sigOverride := map[int][]byte{}
 		switch kind {
+		case "unrecoverable", "no-recovery-id":
+			if len(items) > 0 {
+				i := t.Choose("fs.badsig", len(items))
+				if bs := badSignatureBytes(kind, items[i].Signature); bs != nil {
+					sigOverride[i] = bs
+				}
+			}
 		case "minus-to-2/3", "minus-to-2/3+1":
 			keep := 2 * n / 3
 			if kind == "minus-to-2/3+1" {
@@ -179,7 +187,10 @@ func (b *byzantine) rewriteFastSync(src *node, m outMsg) outMsg {
 		}
 		c.Items = items
 		valid, distinct, bad := b.verifyCVL(h, blockID, &c)
-		md.Proof = codec.BC.MustMarshalToBytes(&c)
+		if len(sigOverride) > 0 {
+			valid, bad = false, bad+1
+		}
+		md.Proof = encodeCVL(&c, sigOverride)
 		m.data = codec.MustMarshalToBytes(&md)
 		s.rc.Fault("byz_fastsync_forged_proof:" + kind)
 		if !valid {
